@@ -170,3 +170,24 @@ Proof.
   - apply nth_error_None in En. exfalso. apply (Nat.lt_irrefl (length (t_outs rt))).
     eapply Nat.le_lt_trans; [exact En | exact Hk].
 Qed.
+
+(* ---------------------------------------------------------------- SaveBlock as a whole *)
+From ELA Require Import proof.C06_Ledger proof.C13_ProgressU.
+
+(* SaveBlock returns Ok on every block that extends the tip and that
+   validation lets through, in every state consistent with a chain. *)
+Theorem save_block_ok s c b :
+  inv s c -> valid_block s b -> b_prev b = s_tip s ->
+  (forall t, In t (b_txs b) -> t_cb t = false -> refs_known s t = true) ->
+  exists s1, save_block s b = Ok s1.
+Proof.
+  intros I V Htip Hk. unfold save_block. rewrite Htip, N.eqb_refl. cbn [negb].
+  destruct (save_processors_fields s b) as [F1 [F2 [F3 [F4 F5]]]]. rewrite F2, F3, F4.
+  destruct (unspent_connect_ok (s_unspent s) b) as [un Hun].
+  - intros t Ht. apply (inv_fresh_empty s c); [exact I|]. apply (inv_txidx _ _ I). apply (vb_fresh _ _ V). exact Ht.
+  - apply (vb_unspent _ _ V).
+  - rewrite Hun. cbn [bind].
+    destruct (utxo_connect_ok (txidx_connect (s_txidx s) b) (s_addr s) b) as [ad Had].
+    + apply refs_known_resolved; [exact Hk | apply (vb_fresh _ _ V)].
+    + rewrite Had. cbn [bind]. eexists; reflexivity.
+Qed.
